@@ -21,7 +21,7 @@ def cases(tier):
     return fixfam.fix_cases(
         tier, rulesets_raw=("layout", "all", "format"), rulesets_yaml=("all",) if tier == "quick" else ("all", "format"),
         rulesets_fixtures=("all",) if tier == "quick" else ("all", "layout"), rulesets_fixture_gaps=("all",),
-    ) + fixfam.layout_product_cases(("all",)) + fixfam.ruleopts_cases() + span_cases()
+    ) + fixfam.layout_product_cases(("all",)) + fixfam.ruleopts_cases() + fixfam.layout_sweep_cases(("layout",)) + span_cases()
 
 
 def oracle(one, lnt, text, lf, fixed, add, res):
